@@ -1045,6 +1045,8 @@ def _quantified_any_all(ip, st, v, want_any):
 
 
 def b_any(ip, st, x):
+    if isinstance(x, Q.GuardedSeq):
+        return x.fold_any()
     v = ip.iter_view(st, st.force(x))
     if isinstance(v, LRef):
         v = v.seq
@@ -1057,6 +1059,8 @@ def b_any(ip, st, x):
 
 
 def b_all(ip, st, x):
+    if isinstance(x, Q.GuardedSeq):
+        return x.fold_all()
     v = ip.iter_view(st, st.force(x))
     if isinstance(v, LRef):
         v = v.seq
